@@ -4,13 +4,13 @@
 // line:   p x<document utf8 hex>
 // output: 2                      the build panicked
 //         1 <class>              the build returned an error (40 = Utf8Error, 41 = InvalidSyntax)
-//         0 <RD> <n> <chunk>*n <k> (<S inv> <S target>)*k -9 <m> <fchunk>*m
+//         0 <|RD|> <RD> <n> <chunk>*n <k> (<S inv> <S target>)*k <m> <fchunk>*m
 //   S = length + Unicode scalar values; ID = the name of the NodeId (S); O(x) = 0 | 1 x; V(x) = count + items;
 //   IMM(x) = 0 x | 1 ID.  A chunk is its own length followed by: kind, ID, 1 (the name resolves through
 //   id_by_name / node_opt to a node of this kind with this id), attribute base, element base,
 //   INode::streamable, then the kind specific getters (see the functions below; order = order of the code here).
 //   Nodes are listed in NodeStore::visit_nodes order, the invalidator registrations (calls of
-//   CacheStoreBuilder::store_invalidator) in call order.  After -9: for every node that carries formulas
+//   CacheStoreBuilder::store_invalidator) in call order.  Then: for every node that carries formulas
 //   its name and the serialised expression trees (compared with hand-written expectations only).
 use cameleon_genapi::builder::{CacheStoreBuilder, GenApiBuilder};
 use cameleon_genapi::elem_type::*;
@@ -747,7 +747,10 @@ fn run(doc: &str) -> Out {
     };
     let cx = Cx { ns: &ns, vs: ctxt.value_store() };
     let mut o: Out = vec![0];
-    reg_desc(&mut o, &rd);
+    let mut rdo = Out::new();
+    reg_desc(&mut rdo, &rd);
+    o.push(rdo.len() as i128);
+    o.extend(rdo);
     let mut nodes = Out::new();
     let mut fo = Out::new();
     let mut n = 0i128;
@@ -763,7 +766,6 @@ fn run(doc: &str) -> Out {
         id(&mut o, &cx, *a);
         id(&mut o, &cx, *t);
     }
-    o.push(-9);
     o.push(nf);
     o.extend(fo);
     o
